@@ -117,6 +117,10 @@ class World:
         r = self.stats.ratio(inv, err, tol * scale)
         if not err <= tol * scale:
             raise V(props, inv, f"{what} {handle} ({e.kind}): |got-ref|={err:.3e} scale={scale:.3e} (allowed {tol:g} rel)", handle=handle)
+        if handle in self.created or handle in self.changed:
+            # the reference of an operation is accurate relative to the OPERAND scale; from now on the bystander monitor compares
+            # the object with what it actually represented when it was last (documentedly) written
+            e.shadow = got
 
     def check_all_untouched(self):
         for hname in list(self.h):
@@ -1064,6 +1068,9 @@ def p_mps_random(w, rnd):
         s["phases"] = [round(rnd.uniform(0, 6.28), 4) for _ in range(n)]
     if rnd.random() < 0.4:
         s["coeff"] = [round(rnd.uniform(0.3, 2.0), 4) * rnd.choice([1, -1]), round(rnd.uniform(-1, 1), 4) if s.get("complex") else 0.0]
+    elif rnd.random() < 0.25:
+        # prefactors that are close to, but not equal to, the default one (e.g. after a normalisation round trip)
+        s["coeff"] = [1.0 + rnd.choice([3e-6, -2e-6, 4e-7, 1e-8]), 0.0]
     return s
 
 
